@@ -161,8 +161,17 @@ func (m *c11) Ops() []seqmc.Op {
 	}
 	for _, k := range append([]int{-1, math.MaxInt32}, ks...) {
 		ops = append(ops, seqmc.Op{N: "Peek", A: []int{k}})
-		for _, e := range []int{0, 1, 2} { // shapes of the extra segments: none / [3] / [2,empty,1]
+		for _, e := range []int{0, 1, 2, 3} { // shapes of the extra segments: none / [3] / [2,empty,1] / [2,3]
 			ops = append(ops, seqmc.Op{N: "PeekWithBytes", A: []int{k, e}})
+		}
+	}
+	for _, k := range []int{3, 4} { // a limit that falls inside the second extra segment of shape [2,3]
+		dup := false
+		for _, x := range ks {
+			dup = dup || x == k
+		}
+		if !dup {
+			ops = append(ops, seqmc.Op{N: "PeekWithBytes", A: []int{k, 3}})
 		}
 	}
 	rs, ws := rScripts2, wScripts2
@@ -183,9 +192,25 @@ type scriptReader struct {
 	script []int
 	i      int
 	given  [][]byte
+	// a conforming io.Reader that is offered no room returns (0, nil) and keeps its data: the
+	// script does not advance.  ReadFrom that keeps offering an empty buffer never makes progress
+	// with such a reader; after maxNoRoom consecutive empty offers the reader fails the call and
+	// the oracle reports the livelock.
+	noRoom  int
+	starved bool
 }
 
+const maxNoRoom = 8
+
 func (r *scriptReader) Read(p []byte) (int, error) {
+	if len(p) == 0 {
+		if r.noRoom++; r.noRoom > maxNoRoom {
+			r.starved = true
+			return 0, errBoom
+		}
+		return 0, nil
+	}
+	r.noRoom = 0
 	if r.i >= len(r.script) {
 		return 0, io.EOF
 	}
@@ -374,6 +399,8 @@ func (m *c11) Apply(op seqmc.Op) (string, string) {
 				extra = [][]byte{{201, 202, 203}}
 			case 2:
 				extra = [][]byte{{201, 202}, {}, {203}}
+			case 3:
+				extra = [][]byte{{201, 202}, {203, 204, 205}}
 			}
 		}
 		var bs [][]byte
@@ -407,6 +434,9 @@ func (m *c11) Apply(op seqmc.Op) (string, string) {
 		r := &scriptReader{m: m, script: op.A}
 		nodesBefore := len(m.nodeLens())
 		n, err := b.ReadFrom(r)
+		if r.starved {
+			return fmt.Sprintf("ReadFrom%v offered the reader an empty buffer %d times in a row: a conforming reader that has data never gets to deliver it", op.A, maxNoRoom+1), "ReadFrom:noroom"
+		}
 		given := cat(r.given)
 		if n != int64(len(given)) {
 			return fmt.Sprintf("ReadFrom%v = %d, %v but the reader handed out %d bytes", op.A, n, err, len(given)), "ReadFrom:count"
